@@ -111,20 +111,21 @@ struct Xf {
 // ---------------------------------------------------------------- polygon with a strip index
 struct PolyIndex {
     std::vector<V> p;
+    struct E { double ax, ay, bx, by; };
     double ymin = 0, ymax = 0, xmin = 0, xmax = 0, inv = 0;
     int B = 1;
-    std::vector<std::vector<int>> strips;
+    std::vector<std::vector<E>> strips;
     explicit PolyIndex(const std::vector<V>& pts) : p(pts) {
         ymin = xmin = INFINITY; ymax = xmax = -INFINITY;
         for (auto& q : p) { ymin = std::min(ymin, q.y); ymax = std::max(ymax, q.y); xmin = std::min(xmin, q.x); xmax = std::max(xmax, q.x); }
-        B = (int)std::min<size_t>(1024, std::max<size_t>(8, p.size()));
+        B = (int)std::min<size_t>(2048, std::max<size_t>(8, 2 * p.size()));
         inv = ymax > ymin ? B / (ymax - ymin) : 0;
         strips.assign(B, {});
         size_t n = p.size();
         for (size_t i = 0; i < n; i++) {
             V a = p[i], b = p[(i + 1) % n];
             int s0 = strip(std::min(a.y, b.y) - 1e-9), s1 = strip(std::max(a.y, b.y) + 1e-9);
-            for (int s = s0; s <= s1; s++) strips[s].push_back((int)i);
+            for (int s = s0; s <= s1; s++) strips[s].push_back(E{a.x, a.y, b.x, b.y});
         }
     }
     int strip(double y) const { int s = (int)floor((y - ymin) * inv); return s < 0 ? 0 : s >= B ? B - 1 : s; }
@@ -132,13 +133,11 @@ struct PolyIndex {
     bool covered(V q) const {
         if (q.y < ymin - 1e-9 || q.y > ymax + 1e-9 || q.x < xmin - 1e-9 || q.x > xmax + 1e-9) return false;
         int w = 0;
-        size_t n = p.size();
-        for (int i : strips[strip(q.y)]) {
-            V a = p[i], b = p[(i + 1) % n];
-            double cr = cross(b - a, q - a);
-            if (a.y <= q.y) { if (b.y > q.y && cr > 0) w++; }
-            else if (b.y <= q.y && cr < 0) w--;
-            if (fabs(cr) <= 1e-9 * (1 + len(b - a)) && dist_seg(q, a, b) <= 1e-9) return true;
+        for (const E& e : strips[strip(q.y)]) {
+            double cr = (e.bx - e.ax) * (q.y - e.ay) - (e.by - e.ay) * (q.x - e.ax);
+            if (e.ay <= q.y) { if (e.by > q.y && cr > 0) w++; }
+            else if (e.by <= q.y && cr < 0) w--;
+            if (fabs(cr) <= 1e-7 && dist_seg(q, V{e.ax, e.ay}, V{e.bx, e.by}) <= 1e-9) return true;
         }
         return w != 0;
     }
@@ -166,6 +165,7 @@ struct ElemOracle {
         std::vector<double> hw;
         double ulo = 0, uhi = 1;       // part of the centre curve kept at trimmed joints
         double slo[2] = {0, 0}, shi[2] = {1, 1};  // the same for the left [0] and right [1] edge curves
+        double rim_lo[2] = {0, 0}, rim_hi[2] = {1, 1};  // rim only (|r| = w/2-g): corner of the edge curves at a centre-curve corner
         int klo = 0, khi = 0;          // sample range taking part in must-cover
         std::vector<V> bc; std::vector<double> br, bh;  // blocks of BL samples: centre, radius, max half width
     };
@@ -197,7 +197,8 @@ struct ElemOracle {
         ua = 1; ub = 0;
         for (int it = 0; it < 80; it++) {
             V F = sd ? edge(i, ua, sd) - edge(i + 1, ub, sd) : cen(i, ua) - cen(i + 1, ub);
-            if (len(F) < 1e-10) return ua <= 1 + 1e-9 && ua > 0.2 && ub >= -1e-9 && ub < 0.8;
+            // edge curves may also cross on the (analytically continued) prolongation of one of them
+            if (len(F) < 1e-8) return sd ? (ua <= 1.1 && ua > 0.2 && ub >= -0.1 && ub < 0.8 && (ua < 1 || ub > 0)) : (ua <= 1 + 1e-9 && ua > 0.2 && ub >= -1e-9 && ub < 0.8);
             V dA = sd ? edge_tan(i, ua, sd) : cen_tan(i, ua), dB = sd ? edge_tan(i + 1, ub, sd) : cen_tan(i + 1, ub);
             double dd = cross(dA, dB);
             if (fabs(dd) < 1e-12) return false;
@@ -231,10 +232,11 @@ struct ElemOracle {
         for (int i = 0; i < n; i++) {
             Sec& s = S[i];
             s.C.resize(N + 1); s.Tt.resize(N + 1); s.Nn.resize(N + 1); s.hw.resize(N + 1);
+            for (int k = 0; k <= N; k++) s.C[k] = cen(i, (double)k / N);
+            V before = cen(i, -1.0 / N), after = cen(i, 1 + 1.0 / N);  // analytic continuation, for the end tangents
             for (int k = 0; k <= N; k++) {
                 double u = (double)k / N;
-                s.C[k] = cen(i, u);
-                V t = cen_tan(i, u);
+                V t = ((k < N ? s.C[k + 1] : after) - (k > 0 ? s.C[k - 1] : before)) * (0.5 * N);  // central difference, step 1/N
                 double l = len(t);
                 if (!(l > 1e-9)) { error = "centre curve is singular"; return; }
                 s.Tt[k] = t * (1 / l);
@@ -264,6 +266,20 @@ struct ElemOracle {
                 double kink = fabs(atan2(cross(a, b), dot(a, b)));
                 kink_max = std::max(kink_max, kink);
                 if (kink > 1e-4) offset_slope_jump = true;
+                // the centre curve has a corner here: on its inner side the edge curves cross before the joint,
+                // and the rim beyond that corner is not part of the outline (it lies in the neighbour's body only
+                // as long as the neighbour does not taper); the corner diagonal must be covered instead
+                if (kink > 1e-3) {
+                    double kc = atan2(cross(a, b), dot(a, b));
+                    int sd = kc > 0 ? 1 : -1, si = sd > 0 ? 0 : 1;
+                    double ua, ub;
+                    if (cross_param(i, sd, ua, ub)) {
+                        S[i].rim_hi[si] = std::min(1.0, ua); S[i + 1].rim_lo[si] = std::max(0.0, ub);
+                        V Xc = S[i].C[N], Xe = edge(i, ua, sd), d = Xe - Xc;
+                        double L = len(d);
+                        if (L > 3 * g) for (double f : {0.5, 1.0}) corner_pts.push_back({Xc + d * (f * (L - 2 * g) / L), i});
+                    }
+                }
                 continue;
             }
             if (fabs(dslope(o[i], 1)) > 1e-9 || fabs(dslope(o[i + 1], 0)) > 1e-9 || fabs(dslope(w[i], 1)) > 1e-9 || fabs(dslope(w[i + 1], 0)) > 1e-9) taper_at_angled_joint = true;
@@ -301,6 +317,7 @@ struct ElemOracle {
                 double ua, ub;
                 if (!cross_param(i, sd, ua, ub)) { degenerate = "the edge curves do not cross near an angled joint"; return; }
                 if (centre_trim) { S[i].shi[si] = std::min(1.0, ua); S[i + 1].slo[si] = std::max(0.0, ub); }
+                else { S[i].rim_hi[si] = std::min(1.0, ua); S[i + 1].rim_lo[si] = std::max(0.0, ub); }
                 // the corner diagonal from the centre corner to this edge corner lies in both bodies
                 V Xe = edge(i, ua, sd), d = Xe - Xc;
                 double L = len(d);
@@ -349,6 +366,8 @@ struct ElemOracle {
                 for (int j = 0; j < nf; j++) {
                     if (f[j] > 0 && (u < s.slo[0] || u > s.shi[0])) continue;  // beyond the corner of the left edges
                     if (f[j] < 0 && (u < s.slo[1] || u > s.shi[1])) continue;
+                    if (f[j] == 1 && (u < s.rim_lo[0] || u > s.rim_hi[0])) continue;
+                    if (f[j] == -1 && (u < s.rim_lo[1] || u > s.rim_hi[1])) continue;
                     test(s.C[k] + s.Nn[k] * (f[j] * rm), i, u, f[j] * rm, hw, joint ? "joint" : "body");
                 }
             }
